@@ -693,6 +693,34 @@ func signing(r *ev.Run) {
 			}
 		}
 	}
+	// unusual but accepted per-try timeouts (negative = "not set"): healthy endpoints must still be asked, in order.
+	for vi, pt := range []time.Duration{-time.Second, -1, -1 << 62} {
+		c := r.Case("sign-odd-per-try", vi)
+		if c == nil {
+			continue
+		}
+		text, want, _ := reply(c.Rand, 1)
+		for _, ip := range ips {
+			byIP[ip].Set(func(context.Context, *proto.SSHCertificateSigningRequest) (*proto.SSHKey, error) {
+				return &proto.SSHKey{Key: text}, nil
+			})
+		}
+		r.Eval(1)
+		signer, err := crypki.NewSigner(crypki.SignerConfig{TLSClientKeyFile: clientKey, TLSClientCertFile: clientCert, TLSCACertFiles: []string{caPath}, CrypkiEndpoints: []string{ips[0], ips[1]}, CrypkiPort: uint(port), Retries: 1, PerTryTimeout: pt})
+		if err != nil {
+			r.Count("odd per-try timeout refused by NewSigner", 1)
+			continue
+		}
+		ctx, cancel := context.WithTimeout(context.Background(), 60*time.Second)
+		certs, _, serr := signer.Sign(ctx, &proto.SSHCertificateSigningRequest{KeyMeta: &proto.KeyMeta{Identifier: "x"}, Principals: []string{"a"}, PublicKey: "k", Validity: 60})
+		cancel()
+		if serr != nil || len(certs) != 1 || string(certs[0].Marshal()) != string(want[0].Marshal()) || len(byIP[ips[0]].Calls()) != 1 || len(byIP[ips[1]].Calls()) != 0 {
+			r.Violation(c, "healthy-first-endpoint-not-used", fmt.Sprintf("per_try_timeout=%v err=%v certs=%d; endpoints received %d and %d requests", pt, serr, len(certs), len(byIP[ips[0]].Calls()), len(byIP[ips[1]].Calls())), nil)
+		} else {
+			r.Count("negative per-try timeout -> first healthy endpoint signs", 1)
+		}
+		r.Nontrivial(fmt.Sprintf("odd-per-try:%v", pt))
+	}
 	r.Extra("signing_cases", idx)
 }
 
